@@ -15,7 +15,28 @@ CLAIMED["C04"] = (
     "as it is determined by handler shape.",
     _NOTE, "DESIGN.md section 5, C04")
 
-for _p in ["C01", "C02", "C03", "C05", "C06", "C07", "C08", "C09", "C10", "C11",
+CLAIMED["C08"] = (
+    "ast path/provenance analysis of the three interceptors, rule F (field "
+    "coverage / rebuild / unchanged-guard) on every handler the substitution "
+    "mapper resolves to, def-use of the lookup closure and of substitute()",
+    "Structural half only: the replacement flows to the return without passing "
+    "a recursion site, the no-replacement exit is the node or the inherited "
+    "identity handler, all other node classes are rebuilt by covering identity "
+    "handlers, the caller's mapping is copied before mutation. The value "
+    "equation follows by induction with C02 and is not decided mechanically.",
+    _NOTE, "DESIGN.md section 5, C08")
+
+CLAIMED["C09"] = (
+    "decision-table extraction of the dependency flags over enumerated paths, "
+    "combine/walk coverage rules on resolved handlers, formula terms of the "
+    "flop handlers, path order rule for the CSE seen-set",
+    "Every branch of every flag handler and of the constructor is enumerated and "
+    "compared with the flag table; every (mapper, node class) pair the three "
+    "analyses resolve to is covered or raising. Exactness on concrete inputs is "
+    "not executed; it follows from per-handler exactness by induction.",
+    _NOTE, "DESIGN.md section 5, C09")
+
+for _p in ["C01", "C02", "C03", "C05", "C06", "C07", "C10", "C11",
            "C12", "C13", "C14", "C15", "C16", "C17", "C19", "C20"]:
     NOT_APPLICABLE[_p] = ("check under construction in this revision (see "
                           "DESIGN.md for the planned static rule)")
